@@ -83,6 +83,26 @@ CHECKS["C19"] = dict(
               "formula, replay on a scratch build",
     design="2/C19")
 
+CHECKS["C10"] = dict(
+    level="other",
+    text="The real Solver.__init__ and Solver.solve run with dt, tf, the "
+         "requested output times and the adaptive steps as exact-real "
+         "symbols and logging stubs for integrator/output/callbacks; every "
+         "path through at most K<=3 (quick) / 4 (thorough) iterations is "
+         "enumerated and z3 decides: ends at tf, steps positive, start/end "
+         "dumps, no requested time jumped over, a dump at every requested "
+         "time reached and every pfreq-th iteration, recorded dt nominal, "
+         "callbacks once per step. Bounded (K, exact reals); no inductive "
+         "claim for longer runs.",
+    note="integrator, dump_output, barrier, ProgressBar, callbacks are "
+         "stubs; floats as reals; requested times separated by >= 1e-6 tf; "
+         "'at' = within 1e-9 tf; solver models that do not replay in "
+         "floating point are reported INCONCLUSIVE",
+    technique="symbolic execution of the python source on z3 Real proxies "
+              "(whole solve loop, bounded by max_steps), per-path SMT "
+              "queries, replay on the real Solver",
+    design="2/C10")
+
 NOT_APPLICABLE = {
     "C05": "whole-application runs of compiled OpenMP code compared across "
            "configurations up to summation order: no unit a solver can "
